@@ -486,6 +486,76 @@ func c15r4(p *Program, r *Report) {
 			r.Check(s.Must["advance"] && s.Max["advance"] == 1, rs, w.fn+" advances the position exactly once per delivered row", "pos++ once on the path to `return true`", "a row is delivered without advancing the position exactly once: a row is delivered twice or skipped")
 		}
 		if nret == 0 {
+			// single exit through a result variable (`ok := rowErr == nil; if ok { pos++ }; return ok`): on every
+			// path on which the returned boolean is true the position was advanced (path-sensitive facts, the
+			// increment leaves a mark); the count per path is bounded by the event analysis above
+			g.markNodes = map[ast.Node]string{}
+			ast.Inspect(fi.Decl.Body, func(x ast.Node) bool {
+				if inc, ok := x.(*ast.IncDecStmt); ok && inc.Tok == token.INC && p.isField(info, inc.X, "Iter", "pos") {
+					g.markNodes[inc] = "advance"
+				}
+				return true
+			})
+			var resNames []string
+			for _, e := range g.Exits() {
+				if rs, ok := e.Node.(*ast.ReturnStmt); ok && len(rs.Results) == 1 {
+					if id, isId := ast.Unparen(rs.Results[0]).(*ast.Ident); isId && info.Types[rs.Results[0]].Value == nil {
+						resNames = append(resNames, id.Name)
+					}
+				}
+			}
+			psol := g.GuardFactsPSAbout(func(atom string) bool {
+				if strings.HasPrefix(atom, "§") {
+					return true
+				}
+				for _, nm := range resNames {
+					if mentions(atom, nm) {
+						return true
+					}
+				}
+				return strings.Contains(atom, "rr") || strings.Contains(atom, "== nil")
+			})
+			g.markNodes = nil
+			for _, e := range g.Exits() {
+				rs, ok := e.Node.(*ast.ReturnStmt)
+				if !ok || len(rs.Results) != 1 {
+					continue
+				}
+				id, isId := ast.Unparen(rs.Results[0]).(*ast.Ident)
+				if !isId || info.Types[rs.Results[0]].Value != nil {
+					continue
+				}
+				ps, reach := psol.Before(rs)
+				if !reach {
+					continue
+				}
+				s, _ := ef.ExitState(e)
+				okAll, nTrue := true, 0
+				for _, f := range ps {
+					cond, _ := expandBoolLocals(g, id, 0, f.stale)
+					v, known := f.Known(cond)
+					if !known {
+						v, known = f.Known(id)
+					}
+					if !known {
+						okAll = false
+						continue
+					}
+					if v {
+						nTrue++
+						if !f.m["§advance"] {
+							okAll = false
+						}
+					}
+				}
+				if nTrue == 0 {
+					continue
+				}
+				nret++
+				r.Check(okAll && s.Max["advance"] <= 1, rs, w.fn+" advances the position exactly once per delivered row", "pos++ on every path on which "+id.Name+" is true", "a row is delivered without advancing the position exactly once: a row is delivered twice or skipped")
+			}
+		}
+		if nret == 0 {
 			r.Unresolved("%s: no `return true`", w.fn)
 		}
 	}
